@@ -1708,15 +1708,18 @@ impl<'a, 'b> AuthorizedAccess<'a, 'b> {
             if subscription.notify(None, &db).await.is_err() {
                 warn!("Failed to create initial notification");
             }
-        }
 
-        #[cfg(feature = "verif-hooks")]
-        crate::verif::yield_point(6, "sec Subs W").await;
-        self.broker
-            .subscriptions
-            .write()
-            .await
-            .add_change_subscription(subscription);
+            // Register while still holding the database read lock: an update applied
+            // between the snapshot and the registration would otherwise never be
+            // delivered to this subscriber.
+            #[cfg(feature = "verif-hooks")]
+            crate::verif::yield_point(6, "sec Subs W").await;
+            self.broker
+                .subscriptions
+                .write()
+                .await
+                .add_change_subscription(subscription);
+        }
 
         let stream = BroadcastStream::new(receiver).filter_map(|result| match result {
             Ok(message) => Some(message),
